@@ -148,11 +148,22 @@ impl ConnectionManager {
                     }
                 },
                 Some(connecting_output) = self.pending_connections.join_next() => {
-                    self.handle_connecting_result(connecting_output.unwrap());
+                    match connecting_output {
+                        Ok(connecting_output) => self.handle_connecting_result(connecting_output),
+                        // If a task panics, just propagate it
+                        Err(e) if e.is_panic() => std::panic::resume_unwind(e.into_panic()),
+                        // Our tasks are only cancelled by the runtime being torn down, in which
+                        // case there is nothing left to manage (`Drop` closes the endpoint).
+                        Err(_) => return,
+                    }
                 },
                 Some(connection_handler_output) = self.connection_handlers.join_next() => {
-                    // If a task panics, just propagate it
-                    connection_handler_output.unwrap();
+                    match connection_handler_output {
+                        Ok(()) => {}
+                        // If a task panics, just propagate it
+                        Err(e) if e.is_panic() => std::panic::resume_unwind(e.into_panic()),
+                        Err(_) => return,
+                    }
                 },
             }
         }
@@ -177,7 +188,13 @@ impl ConnectionManager {
         self.pending_connections.shutdown().await;
 
         // Wait for all connection handlers to terminate
-        while self.connection_handlers.join_next().await.is_some() {}
+        while let Some(result) = self.connection_handlers.join_next().await {
+            if matches!(result, Err(ref e) if e.is_cancelled()) {
+                // A handler was cancelled before it could remove its peer: the runtime is being
+                // torn down and a graceful shutdown is no longer possible.
+                return;
+            }
+        }
         // At this point we shouldn't have any active peers
         assert!(
             self.active_peers.inner().connections.is_empty(),
